@@ -55,7 +55,7 @@ const CLASSES: &[&str] = &[
     "roundtrip",
 ];
 
-fn hc(thorough: bool) -> HistCheck<'static> {
+pub fn hc(thorough: bool) -> HistCheck<'static> {
     HistCheck {
         focus: "C03",
         profile: profile(thorough),
